@@ -144,7 +144,8 @@ def nodeAt (t : Tree) : List Nat → Option Tree
 
 /-! ### what the services see at a node -/
 
-def isDot (t : Tree) : Bool := t.kind == "bin_op" && attrVal t "opkind" == some "Dot"
+/-- `AstBinaryOp` whose `op_token` is `Dot` (the grammar action puts the flag first) -/
+def isDot (t : Tree) : Bool := t.kind == "bin_op" && t.attrs.head? == some "dot"
 
 def exOf : Nat → Tree → Ex
   | 0, _ => .other
